@@ -129,14 +129,15 @@ def _add_log(S_, kind):
     b = bt[0]
     h, n = S_.old, S_.new
     cust = h.f(S_.a.self, "_custom")
+    cust1 = n.f(S_.a.self, "_custom")
     out = [("built-from-the-given-arguments", "LOG", And(b.args[1] == S_.a.path, b.args[2] == S_.a.line, b.args[3] == S_.a.args,
                                                          b.args[4] == S_.a.watches, b.args[5] == S_.a.metrics), None),
            # the handle is the registration's own fresh identifier, never something two registrations can share
            ("handle-is-this-registrations-own-id", "POST", Implies(Not(Val.is_VNone(b.result)), S_.result == b.args[0]), ["C13"]),
            ("registration-appended", "POST", Implies(Not(Val.is_VNone(b.result)), And(
-               n.llen(cust) == h.llen(cust) + 1, n.lget(cust, h.llen(cust)) == b.result)), ["C13"]),
+               n.llen(cust1) == h.llen(cust) + 1, n.lget(cust1, h.llen(cust)) == b.result)), ["C13"]),
            ("uninterpretable-registration-installs-nothing", "POST", Implies(Val.is_VNone(b.result), And(
-               n.llen(cust) == h.llen(cust), n.larr(cust) == h.larr(cust))), ["C11", "C13"])]
+               n.llen(cust1) == h.llen(cust), n.larr(cust1) == h.larr(cust))), ["C11", "C13"])]
     return out
 
 
@@ -153,23 +154,27 @@ c.sig("IllegalStateException", "task-handler-closed")
 
 def _rm_post(S_):
     """removes the registration this handle was returned for - and only that one; an unknown (or already used)
-    handle changes nothing; the service's configuration is untouched."""
+    handle changes nothing; the service's configuration is untouched.  (The custom list may be updated in place or
+    replaced: the clause is about the list the service holds afterwards.)"""
     h, n = S_.old, S_.new
     cust, handles = h.f(S_.a.self, "_custom"), h.f(S_.a.self, "_custom_handles")
+    cust1 = n.f(S_.a.self, "_custom")
     known = h.dhas(handles, S_.a._id)
     target = h.dget(handles, S_.a._id)
-    k = z3.Int("k!rm")
+    k, j = z3.Int("k!rm"), z3.Int("j!rm")
     n0 = h.llen(cust)
+    same = And(n.llen(cust1) == n0, z3.ForAll([j], Implies(And(j >= 0, j < n0), n.lget(cust1, j) == h.lget(cust, j))))
     return And(
-        Not(n.dhas(handles, S_.a._id)),
-        Implies(Not(known), And(n.llen(cust) == n0, n.larr(cust) == h.larr(cust))),
+        Not(n.dhas(n.f(S_.a.self, "_custom_handles"), S_.a._id)),
+        n.f(S_.a.self, "_tracepoint_config") == h.f(S_.a.self, "_tracepoint_config"),
+        Implies(Not(known), same),
         Implies(known, Or(
             # present: exactly one element - the target - is removed, the others keep their order
-            z3.Exists([k], And(k >= 0, k < n0, h.lget(cust, k) == target, n.llen(cust) == n0 - 1,
-                               z3.ForAll([z3.Int("j!rm")], And(
-                                   Implies(And(z3.Int("j!rm") >= 0, z3.Int("j!rm") < k), n.lget(cust, z3.Int("j!rm")) == h.lget(cust, z3.Int("j!rm"))),
-                                   Implies(And(z3.Int("j!rm") >= k, z3.Int("j!rm") < n0 - 1), n.lget(cust, z3.Int("j!rm")) == h.lget(cust, z3.Int("j!rm") + 1)))))),
-            And(n.llen(cust) == n0, n.larr(cust) == h.larr(cust)))))
+            z3.Exists([k], And(k >= 0, k < n0, h.lget(cust, k) == target, n.llen(cust1) == n0 - 1,
+                               z3.ForAll([j], And(
+                                   Implies(And(j >= 0, j < k), n.lget(cust1, j) == h.lget(cust, j)),
+                                   Implies(And(j >= k, j < n0 - 1), n.lget(cust1, j) == h.lget(cust, j + 1)))))),
+            same)))
 
 
 c.ens("removes-exactly-the-registration-of-this-handle", _rm_post)
@@ -207,13 +212,12 @@ def _stub_poll(it, args, kwargs, node, anchor):
 
 
 for _nm, _lab in (("convert_resource", "convert_resource"),):
-    c = contract("grpc/__init__.py", _nm, [])
+    c = contract("grpc/__init__.py", _nm, [], coarse=True)
     c.param("resource", VAL)
     c.result = FRESH("proto")
     c.logged = _lab
     c.modifies = lambda S_: []
     c.sig("Exception", "resource-cannot-be-converted")
-    c.coarse = True
 
 c = contract(PL, "LongPoll.poll", ["C12", "C08"])
 c.param("self", OBJ("LongPoll"))
